@@ -37,6 +37,8 @@ def plan(tier, seed):
     for i in range(4 if tier == "quick" else 16):
         specs.append({"kind": "bigcount", "part": i, "seed": seed, "tier": tier, "idx": idx})
         idx += 1
+    for i in range(1 if tier == "quick" else 4):
+        specs.append({"kind": "izero", "part": i, "seed": seed, "tier": tier, "idx": 8000 + i})
     return specs
 
 
@@ -174,6 +176,26 @@ def run_shard(spec) -> Result:
                 case["regs"]["I"] = cnt
                 batch.append(case)
         res.count("bigcount_cases", len(batch))
+        run_batch(res, batch)
+    elif spec["kind"] == "izero":
+        # every counted instruction with I = 0 (the cores are known to disagree for some of them - each group is recorded
+        # with exactly the fields that differ, so that any OTHER change of the I = 0 behaviour is still reported)
+        ops = [0x54, 0x55, 0x5C, 0x5D, 0xC4, 0xC5, 0xD4, 0xD5, 0xEC, 0xFC, 0xC3, 0xCB, 0xCF, 0xD3, 0xDB, 0xE3, 0xEB, 0xF3,
+               0xFB, 0x56, 0x5E, 0xEF]
+        batch = []
+        for op in ops:
+            for pfx in (None, 0x32, 0x22, 0x36, 0x25):
+                for rep in range(2 if spec["tier"] == "quick" else 8):
+                    b2 = {0xE3: 0x24, 0xEB: 0x24, 0x56: 0x84, 0x5E: 0x84}.get(op, r.randrange(0x10, 0x60))
+                    case = states.build_case(r, pfx, op, b2, "dist", small_payload=True, canonical=True, icount=0)
+                    if case is None:
+                        continue
+                    case["regs"]["FHI"] = 0
+                    case["regs"]["I"] = 0
+                    case["regs"]["FC"] = rep & 1
+                    case["regs"]["FZ"] = (rep >> 1) & 1 if spec["tier"] != "quick" else 1 - (rep & 1)
+                    batch.append(case)
+        res.count("izero_cases", len(batch))
         run_batch(res, batch)
     else:
         from .. import programs
